@@ -2,7 +2,15 @@
    Schedules: small-step machine (Sys/Singleton.v) over the GENERATED instruction list of
    Lexer.get_default_instance (Gen/SingletonProg.v): all thread counts, all schedules.
    History: the API as a state machine over the persistent state (Sys/History.v), whose shape is
-   justified by the GENERATED inventory of persistent mutable state (Gen/StateInv.v). *)
+   justified by the GENERATED inventory of persistent mutable state (Gen/StateInv.v).
+
+   The generated program has one of two shapes (publish-then-initialise / initialise-then-publish);
+   every theorem of this file holds for both, so the file compiles unchanged before and after the repair
+   of finding KF-C20-1.  What differs is decided by the generated flag [publishes_before_init]:
+     flag = true   the history statement is REFUTED for histories with an interrupted first
+                   initialisation (C20_hist_interrupted_init_refuted_if_publishes);
+     flag = false  it holds unconditionally (C20_hist_history_if_publishes_last).
+   Which case holds now is the single obligation of Inst/C20Finding.v (resp. Inst/C20Fixed.v). *)
 From Coq Require Import String.
 From SqlModel Require Import Base.
 From SqlModel.Sys Require Import Singleton SchedObs History HistoryX.
@@ -45,6 +53,54 @@ Theorem C20_sched_no_deadlock_fair_partial : forall n blks t,
   Forall (fair_block n) blks -> n * length get_default_instance_prog <= length blks -> t < n ->
   returned (run get_default_instance_prog n (concat blks)) t = Some 0.
 Proof. exact C20_no_deadlock_fair. Qed.
+
+(* the same for ANY program accepted by the structural check, i.e. for both shapes *)
+Theorem C20_sched_any_well_locked : forall p, well_locked expected_kws p = true ->
+  (forall n sched t o, returned (run p n sched) t = Some o ->
+                       fully_initialised expected_kws (run p n sched) o)
+  /\ (forall n sched t1 t2 o1 o2, returned (run p n sched) t1 = Some o1 ->
+                                  returned (run p n sched) t2 = Some o2 -> o1 = o2)
+  /\ (forall n sched, length (heap (run p n sched)) <= 1)
+  /\ (forall n sched sched' o, inst (run p n sched) = Some o ->
+                               inst (run p n (sched ++ sched')) = Some o)
+  /\ (forall n sched, violation expected_kws (run p n sched) = 0).
+Proof.
+  intros p Hwl. repeat split.
+  - exact (wl_init_safe _ _ Hwl).
+  - exact (wl_same_instance _ _ Hwl).
+  - exact (wl_single_init _ _ Hwl).
+  - exact (wl_never_replaced _ _ Hwl).
+  - exact (wl_no_violation _ _ Hwl).
+Qed.
+Print Assumptions C20_sched_any_well_locked.
+
+(* the generated program is one of the two reference programs over its own body *)
+Theorem C20_sched_prog_shape :
+  get_default_instance_prog = old_prog \/ get_default_instance_prog = new_prog.
+Proof. exact prog_is_old_or_new. Qed.
+
+(* what the lock is needed for in the publish-last shape: NOT for keeping half-built objects away from
+   the callers (holds without the lock, all thread counts, all schedules) ... *)
+Theorem C20_sched_unlocked_new_init_safe : forall n sched t o,
+  returned (run unlocked_new_prog n sched) t = Some o ->
+  fully_initialised expected_kws (run unlocked_new_prog n sched) o.
+Proof. exact C20_unlocked_new_init_safe. Qed.
+Print Assumptions C20_sched_unlocked_new_init_safe.
+
+(* ... but for single initialisation *)
+Theorem C20_sched_unlocked_new_two_instances_refuted :
+  exists sched o1 o2,
+    returned (run unlocked_new_prog 2 sched) 0 = Some o1 /\
+    returned (run unlocked_new_prog 2 sched) 1 = Some o2 /\ o1 <> o2 /\
+    length (heap (run unlocked_new_prog 2 sched)) = 2.
+Proof. exact C20_unlocked_new_two_instances_refuted. Qed.
+
+(* in the publish-first shape the lock is needed for both *)
+Theorem C20_sched_unlocked_old_refuted :
+  exists sched t o,
+    returned (run unlocked_prog 2 sched) t = Some o /\
+    ~ fully_initialised expected_kws (run unlocked_prog 2 sched) o.
+Proof. exact C20_unlocked_refuted. Qed.
 
 (* the lexer handed to racing first calls carries exactly the configuration of a fresh process *)
 Theorem C20_sched_default_cfg : forall n sched t o,
@@ -92,22 +148,66 @@ Theorem C20_hist_needs_default :
     result_after cfg (fun c _ => c) h call <> result_fresh cfg (fun c _ => c) call.
 Proof. exact C20_history_needs_default. Qed.
 
-(* ---------------- finding KF-C20-1: an exception interrupting the first initialisation --------- *)
-(* the statement "whatever calls preceded it, including calls that raised" is FALSE of the faithful
-   model (and of the implementation: the witness is replayed by tools/props/C20.py stage D) *)
-Theorem C20_hist_interrupted_init_refuted :
+(* ---------------- an exception interrupting the first initialisation (finding KF-C20-1) --------- *)
+(* While the instance is published before it is initialised, the statement "whatever calls preceded it,
+   including calls that raised" is FALSE of the faithful model (and of the implementation: the witness is
+   replayed by tools/props/C20.py stage D) *)
+Theorem C20_hist_interrupted_init_refuted_if_publishes :
+  publishes_before_init = true ->
   exists h call,
     existsb is_reconf (strip h) = false /\
     xresult_after (option cfg) (fun c _ => c) h call <> xresult_fresh (option cfg) (fun c _ => c) call.
-Proof. exact C20_xhistory_refuted. Qed.
-Print Assumptions C20_hist_interrupted_init_refuted.
+Proof. exact C20_xhistory_refuted_if_publishes. Qed.
+Print Assumptions C20_hist_interrupted_init_refuted_if_publishes.
 
-(* everything outside the class of the finding is covered *)
+(* Once the instance is published last, the history theorem holds unconditionally: interrupted first
+   initialisations included *)
+Theorem C20_hist_history_if_publishes_last :
+  publishes_before_init = false ->
+  forall (R : Type) (sem : option cfg -> op -> R) h call,
+    ends_defaultb (strip h) = true ->
+    xresult_after R sem h call = xresult_fresh R sem call.
+Proof. exact C20_xhistory_if_publishes_last. Qed.
+Print Assumptions C20_hist_history_if_publishes_last.
+
+(* exactly one of the two is the case, decided by the generated flag *)
+Theorem C20_hist_interrupted_init_dichotomy :
+  (publishes_before_init = false /\
+   forall (R : Type) (sem : option cfg -> op -> R) h call,
+     ends_defaultb (strip h) = true -> xresult_after R sem h call = xresult_fresh R sem call)
+  \/ (publishes_before_init = true /\
+      exists h call,
+        existsb is_reconf (strip h) = false /\
+        xresult_after (option cfg) (fun c _ => c) h call <> xresult_fresh (option cfg) (fun c _ => c) call).
+Proof. exact C20_xhistory_dichotomy. Qed.
+Print Assumptions C20_hist_interrupted_init_dichotomy.
+
+(* everything outside the class of the finding is covered in both cases; the guard is vacuous once the
+   flag is false *)
 Theorem C20_hist_history_partial : forall (R : Type) (sem : option cfg -> op -> R) h call,
   kf_interrupted_init h = false -> ends_defaultb (strip h) = true ->
   xresult_after R sem h call = xresult_fresh R sem call.
 Proof. exact C20_xhistory_partial. Qed.
 Print Assumptions C20_hist_history_partial.
+
+Theorem C20_hist_history_guarded : forall (R : Type) (sem : option cfg -> op -> R) h call,
+  publishes_before_init = false \/ kf_interrupted_init h = false ->
+  ends_defaultb (strip h) = true ->
+  xresult_after R sem h call = xresult_fresh R sem call.
+Proof. exact C20_xhistory_guarded. Qed.
+
+(* the flag is what the instruction list does, for every program of either shape *)
+Theorem C20_hist_flag_is_semantic :
+  publishes_before_init = publishes_before_initb get_default_instance_prog.
+Proof. exact publishes_flag_ok. Qed.
+
+Theorem C20_hist_new_shape_publishes_last : forall e p body,
+  shape e true p body -> starts_with_clear (init_body p) = true -> publishes_before_initb p = false.
+Proof. exact new_shape_publishes_last. Qed.
+
+Theorem C20_hist_old_shape_publishes_first : forall e p body,
+  shape e false p body -> publishes_before_initb p = true.
+Proof. exact old_shape_publishes_first. Qed.
 
 (* ---------------- obligations over generated data ---------------------------------------------- *)
 Theorem C20_state_inventory : forallb state_ok bindings = true.
